@@ -15,19 +15,23 @@ MANIFEST_ENTRY = {
             "add sub mul inc dec unm, bitwise, comparisons, shifts and rotations by any Lua integer count, bwrap, Lua-integer "
             "conversions, unsigned/truncated/floor division with remainders, ipow (exponent read unsigned, as bint documents; signed "
             "reading proved for exponents >= 0) and upowmod for every modulus, tobase/frombase for bases 2..36 with round trip and the "
-            "exact set of accepted strings (strings without white space), integer literals in bases 2/16 and decimal (exact below 2^159, "
-            "a float from there on), tohexint/tobinint/todecint/todecsci, the conversions of Lua integers / integer-valued floats / "
+            "exact set of accepted strings (any byte string: optional sign + digits of the base, nil otherwise, white space included), "
+            "bn.from from the literal TEXT: the two lpegrex patterns as a total splitter characterised by an iff (accepted with "
+            "captures (neg,int,frac,exp) exactly for texts of the declared shape), integer literals in bases 2/16 and decimal (exact "
+            "below 2^159, a float from there on), a binary/hexadecimal text the pattern refuses is an error, tohexint/tobinint/todecint/todecsci, the conversions of Lua integers / integer-valued floats / "
             "strings and the arithmetic and comparison entry points on such mixed arguments, bint.tonumber, trunc/floor/ceil, byte "
             "buffers; and, on an object-level model, that no public function changes an operand and results are fresh objects "
             "(documented exceptions: tobint/parse without clone, compress, brol/bror by a multiple of the width) - all exact in Z reduced "
             "to 2^160 two's complement; resting on differential testing only: that the hand-written model IS the code (op-by-op "
-            "correspondence incl. an aliasing stream), the fallback arithmetic on plain Lua numbers, strings with white space, "
-            "the Lua VM library functions modelled in Model3/Model4",
+            "correspondence incl. an aliasing stream and the real lpegrex patterns reached through debug.getupvalue), the fallback "
+            "arithmetic on plain Lua numbers, literal texts with a fraction or an exponent (float code, C14: only the split is "
+            "proved and corresponded), the Lua VM library functions modelled in Model3/Model4",
     "note": "trusted: Coq 8.16.1 kernel, no axioms (coqchk in thorough); hand-written models coq/C17/Model*.v incl. the Lua VM library "
             "functions (tostring, %x, tonumber(s, base), lower, %w, math.floor/ceil/modf, number comparison, strtod of long decimals, "
             "string.pack/unpack) modelled from the C sources; coq/Base/LuaInt.v (64-bit Lua integers; the interpreter's width is checked "
             "at run time); extraction + OCaml driver, harness/C17/ops.lua, the interpreter rebuilt from /repo/src; scrape of bint(<bits>), "
-            "the word-size divisor and BASE_LETTERS. No cross-property file dependencies (C14 reuses C17's bn_from_dec by reference only).",
+            "the word-size divisor, BASE_LETTERS and five repair-policy flags (upowmod_mulmod, rot_reduces_count, dec_literal_checked, "
+            "frombase_short_guarded, literal_match_checked; each a 3-way classifier new/old/else raise). No cross-property file dependencies (C14 reuses C17's bn_from_dec by reference only).",
     "technique": "machine-checked proof in Coq over an executable model + extracted-model/implementation correspondence",
 }
 THEOREM_CLASSES = {
@@ -43,18 +47,20 @@ THEOREM_CLASSES = {
     "C17_objects_unary": "main", "C17_objects_binary": "main", "C17_objects_shift_rotate": "main", "C17_objects_division": "main",
     "C17_objects_pow_scalar": "main",
     "C17_frombase_uniform": "corollary", "C17_frombase_guard_needed": "refutation",
-    "C17_literal_split_partition": "main", "C17_literal_text_exact": "main", "C17_literal_malformed_exact": "main", "C17_literal_match_check_needed": "refutation",
+    "C17_literal_split_partition": "main", "C17_literal_split_complete": "main", "C17_literal_split_exact": "corollary",
+    "C17_literal_text_exact": "main", "C17_literal_malformed_exact": "definitional", "C17_literal_malformed_shape": "corollary",
+    "C17_literal_match_check_needed": "tripwire",
     "C17_rotate_reduction_needed": "refutation", "C17_upowmod_mulmod_needed": "refutation", "C17_literal_check_needed": "refutation",
 }
 ALLOWED_AXIOMS = []
 TRUSTED_BASE = [
     "coqc 8.16.1 kernel (vm_compute used for parameter facts; no native_compute)",
     "no axioms: every theorem of coq/C17/Properties.v is 'Closed under the global context'",
-    "policy discriminators scraped into Gen.v (upowmod_mulmod, rot_reduces_count, dec_literal_checked, frombase_short_guarded, literal_match_checked): the five repaired functions are modelled for both policies, the exact theorems are proved from the fact that the scraped policy is the repaired one and the `_needed` theorems refute the other policy",
+    "policy discriminators scraped into Gen.v (upowmod_mulmod, rot_reduces_count, dec_literal_checked, frombase_short_guarded, literal_match_checked): the five repaired functions are modelled for both policies, the exact theorems are proved from the fact that the scraped policy is the repaired one and the `_needed` theorems refute the other policy (general-policy refutations with computed witnesses, except C17_literal_match_check_needed, a one-instance tripwire: under the old policy the model answers TOther = not modelled)",
     "translator checks/C17.py:gen (regex scrape of bint(<bits>) in utils/bn.lua, of the word-size default and of the BASE_LETTERS string in thirdparty/bint.lua)",
     "extraction: Require Extraction + ExtrOcamlBasic only (bool,option,unit,list,prod,sumbool,sumor mapped to OCaml; Z/N/positive/nat stay Coq inductives); no Extract Constant of our own",
     "ocaml/zutil.ml + coq/C17/driver.ml (hex text <-> extracted Z), harness/C17/ops.lua (calls bn/bint), OCaml 4.13.1, gcc (interpreter rebuilt from /repo/src)",
-    "modelled rather than verified: bint.lua / bn.lua are mirrored by hand in coq/C17/Model.v, Model2.v, Model3.v, Model4.v; the tie is the op-by-op correspondence run on every check",
+    "modelled rather than verified: bint.lua / bn.lua are mirrored by hand in coq/C17/Model.v, Model2.v, Model3.v, Model4.v, Model5.v (bn.from from the text: the two lpegrex literal patterns as a hand-written recursive-descent splitter) and ModelObj.v (object store); the tie is the op-by-op correspondence run on every check",
     "Lua VM library functions used by the text conversions (tostring(integer), string.format('%x'), tonumber(s, base), string.lower, the %w class, math.floor/ceil/modf, number comparison, strtod of a long decimal integer, string.pack/unpack) are modelled in Model3.v / Model4.v from lstrlib.c/lbaselib.c/lobject.c/lmathlib.c/lvm.c; a Lua float is the exact dyadic m*2^e of the double",
 ]
 ASSUMPTIONS = [
